@@ -263,7 +263,8 @@ func extraC05(col *Collector, r *RNG, tier string) {
 		case res.afterReturn:
 			return false, "the handler was called after Stream had returned", "handler-after-return"
 		case len(res.leaked) > 0:
-			return false, "goroutines started by the library remain after Stream returned: " + strings.Join(res.leaked, " | "), "goroutine-leak"
+			return false, "goroutines started by the library remain after Stream returned: " + strings.Join(res.leaked, " | "),
+				fmt.Sprintf("goroutine-leak:dump-requested=%v:frames=[%s]", len(res.dumps) > 0, strings.Join(res.leaked, ","))
 		case expectConn && res.connected && !res.peerClosed:
 			return false, "the master never saw its socket closed", "socket-left-open"
 		}
@@ -281,6 +282,7 @@ func extraC05(col *Collector, r *RNG, tier string) {
 		s, mp := newStreamer(m, h, 5, firstFile, 4)
 		var desc string
 		var opts attemptOpts
+		var pf *fault
 		switch i % 10 {
 		case 0: // the attempt fails before a connection exists
 			opts = defaultOpts()
@@ -297,6 +299,7 @@ func extraC05(col *Collector, r *RNG, tier string) {
 			opts = defaultOpts()
 			opts.script = scriptFor(h, f)
 			opts.cancelAtSent = f.at
+			pf = &f
 			desc = "reader-waiting-for-network:cancel@" + fmt.Sprint(f.at)
 		case 4, 5: // reader holding an event: handler blocked at the stop, master far ahead
 			kind := r.Pickstr("cancel", "close", "err", "eof", "rst")
@@ -308,23 +311,35 @@ func extraC05(col *Collector, r *RNG, tier string) {
 				o2.cancelAfter, o2.cancelAtSent = -1, npk
 			}
 			opts = o2
+			pf = &f
 			desc = "reader-holding-event:handler-blocked:" + f.String()
 		case 6: // handler slow, then fails while the master is ahead (F4)
 			opts = defaultOpts()
 			opts.handlerDelay = 20 * time.Millisecond
 			opts.failAt = r.Intn(ntx)
-			opts.script = scriptFor(h, fault{kind: "hold", at: npk + 1, pace: "ahead"})
+			hf := fault{kind: "hold", at: npk + 1, pace: "ahead"}
+			opts.script = scriptFor(h, hf)
+			pf = &hf
 			desc = "reader-holding-event:handler-slow-then-fails"
 		default:
 			kind := faultKinds[r.Intn(len(faultKinds))]
 			f, o2 := randFault(r, h, kind, npk, ntx)
 			opts = o2
+			pf = &f
 			desc = "fault:" + f.String()
 		}
 		res := runAttempt(s, m, h, mp, opts)
 		ok, note, key := check(desc, res, true)
+		corr, model := true, ""
+		if pf != nil && ok {
+			c, obs, line := protoCheck(h, *pf, opts, res)
+			corr, model = c, line
+			if !c {
+				note = "observed outcome is not allowed by the protocol model: " + obs
+			}
+		}
 		impl := fmt.Sprintf("ret=%s error=%s stream=%s errdur=%s closed=%v leaked=%d", clip(res.streamRet, 60), clip(res.errorRet, 60), res.streamDur.Round(time.Millisecond), res.errorDur.Round(time.Millisecond), res.peerClosed, len(res.leaked))
-		col.AddScenario(strings.SplitN(desc, ":", 2)[0], desc+" # "+h.line(posStr(firstFile, 4)), true, ok, true, note, key+":"+desc, impl, "")
+		col.AddScenario(strings.SplitN(desc, ":", 2)[0], desc+" # "+h.line(posStr(firstFile, 4)), true, ok, corr, note, key+" scenario="+desc, impl, model)
 	}
 }
 
@@ -409,8 +424,16 @@ func extraC06(col *Collector, r *RNG, tier string) {
 		if res.streamRet == "hang" {
 			fail("stream-hang", "Stream did not return")
 		}
-		col.AddScenario("cause-"+kind, desc+" # "+h.line(posStr(firstFile, 4)), true, ok, true, note, key+":"+desc,
-			fmt.Sprintf("ret=%s error=%s", clip(res.streamRet, 80), clip(res.errorRet, 160)), "")
+		corr, model := true, ""
+		if ok {
+			c, obs, line := protoCheck(h, f, opts, res)
+			corr, model = c, line
+			if !c {
+				note = "observed outcome is not allowed by the protocol model: " + obs
+			}
+		}
+		col.AddScenario("cause-"+kind, desc+" # "+h.line(posStr(firstFile, 4)), true, ok, corr, note, key+":"+desc,
+			fmt.Sprintf("ret=%s error=%s", clip(res.streamRet, 80), clip(res.errorRet, 160)), model)
 	}
 }
 
